@@ -108,6 +108,7 @@ STATE_FIELD_ROLES = {
     "pos": "backtracked", "user_stack": "backtracked", "rule_stack": "backtracked", "atomic_depth": "backtracked", "_pos_history": "backtracked (the saved positions)",
     # changed and changed back around a sub-parse by the construct that changes them
     "neg_pred_depth": "scoped", "_suppress_failures": "scoped", "tag_stack": "scoped",
+    "hide_pairs": "scoped (set by a rule for its body inside atomic_checkpoint(), which puts the entry value back)",
     # the furthest-failure record only ever moves forward; it is an output, never read by matching
     "furthest_pos": "record", "furthest_expected": "record", "furthest_unexpected": "record", "furthest_stack": "record",
 }
